@@ -176,7 +176,7 @@ Print Assumptions generated_unchecked_columns_only_known.
 Theorem generated_late_failures_only_known :
   subset_str (late_fns all_sigs)
              ["create_junction"; "create_junctions"; "create_pipe"; "create_pipe_from_parameters";
-              "create_pipes"; "create_pipes_from_parameters"] = true.
+              "create_pipes"; "create_pipes_from_parameters"; "create_pressure_controls"] = true.
 Proof. vm_compute. reflexivity. Qed.
 Print Assumptions generated_late_failures_only_known.
 
